@@ -21,7 +21,7 @@ pub fn spec() -> Spec {
         replay,
         nshards: |_| 16,
         case_cap_s: |t| t.pick(900, 14400),
-        rule: "one case per admissible 3-dimensional symbol (spherical tiles and vertex figures by the reference model, branching in {1,2,3,4,6}) on every class of D-sets of size <= M, plus the 20 corpus symbols. Per case: the verdict under EVERY schedule of the simplify choice point with at most 1 deviation (G3; symbols that never reach simplify have the single empty schedule); the verdict of every relabeling (all for size <= 3, systematic family above), of the dual and of every entry of covers(s, k) that the reference model accepts as an admissible covering. Oracle: a verdict is returned (no panic, no time-out); the verdict class is the same across schedules, relabelings and dual; never yes on a symbol and no on one of its covers or vice versa; every yes is re-derived: pseudo_toroidal_cover is a finite oriented branch-free covering (reference model), its H1 is Z^3 (textbook presentation + invariant factors) and it has 7 / 13 classes of subgroups of index 2 / 3; every corpus symbol gets yes, and so does every [quick: a spread of the] relabeling of every corpus symbol of 4-6 chambers and of its dual (default schedule). Non-trivial = the symbol passes the invariant filter (reaches the cover construction) or is a corpus symbol.",
+        rule: "one case per admissible 3-dimensional symbol (spherical tiles and vertex figures by the reference model, branching in {1,2,3,4,6}) on every class of D-sets of size <= M, plus the 20 corpus symbols. Per case: the verdict under EVERY schedule of the simplify choice point with at most 1 deviation (G3; symbols that never reach simplify have the single empty schedule); the verdict of every relabeling (all for size <= 3, systematic family above), of the dual and of every entry of covers(s, k) that the reference model accepts as an admissible covering. Oracle: a verdict is returned (no panic, no time-out); the verdict class is the same across schedules, relabelings and dual; never yes on a symbol and no on one of its covers or vice versa; every yes is re-derived: pseudo_toroidal_cover is a finite oriented branch-free covering (reference model), its H1 is Z^3 (textbook presentation + invariant factors) and it has 7 / 13 classes of subgroups of index 2 / 3; every corpus symbol gets yes, and so does every [quick: a spread of the] relabeling of every corpus symbol of 4-6 chambers and of its dual (default schedule). Call histories: large symbols (120-576 chambers: 3-spheres from Coxeter groups, 3-tori above the corpus) asked alternately and repeatedly within one process get the same class every time, the tori yes. Non-trivial = the symbol passes the invariant filter (reaches the cover construction) or is a corpus symbol.",
         assumptions: &["the completeness of the table of space-group invariants (src/data/euclideanInvariants.data) cannot be re-derived offline; what is checked is totality, invariance, cover-consistency, certificate soundness of every yes, and the corpus", "covers(s, k) supplies covers; each is verified to be a covering of the symbol by the reference model", "the 7/13 subgroup counts of a certificate use the crate's presentation and low-index enumeration (validated by C09/C12)"],
         bounds: |t| json!({"admissible_max_size": t.pick(3, 4), "choice_deviation_bound": 1, "cover_sheets": t.pick(2, 3), "prism_family_base_2d_max_size": t.pick(4, 5), "lattice_family": {"roots": "corpus symbols with <= 3 chambers", "sheets_per_level": if t.is_thorough() { json!([4, 3, 2, 2]) } else { json!([4, 2]) }, "max_chambers": t.pick(12, 24), "expanded_per_fingerprint": t.pick(1, 2)}, "cover_sheets_above_a_yes_symbol_of_at_most_6_chambers": t.pick(4, 6), "such_covers_have_at_most_chambers": t.pick(12, 18)}),
     }
@@ -249,6 +249,10 @@ fn run(ctx: &mut Ctx) {
     if ctx.nviolations() > 0 {
         return;
     }
+    call_sequence_family(ctx);
+    if ctx.nviolations() > 0 {
+        return;
+    }
     // prisms over every euclidean 2-dimensional symbol of size <= 4 [5] (12 [15] chambers): all wallpaper groups
     // times the infinite dihedral group, in the harness's numbering and under renumberings
     for t in euclidean_2d_symbols(tier.pick(4, 5)) {
@@ -262,6 +266,76 @@ fn run(ctx: &mut Ctx) {
             }
         }
     }
+}
+
+/// Call histories: the verdict for a symbol must not depend on what was asked before in the same process.  Large
+/// symbols (120 to 384 chambers: tilings of the 3-sphere from the Coxeter groups [3,3,3] and [4,3,3] built by the
+/// reference Todd-Coxeter, pseudo-toroidal covers of corpus symbols and 2-sheeted covers of those, which are 3-tori)
+/// are asked alternately, each several times and also renumbered, within ONE worker process.  Every finite cover
+/// of a corpus symbol must get yes; every other symbol must get the class of its first answer every time.
+fn call_sequence_family(ctx: &mut Ctx) {
+    if !ctx.take() {
+        return;
+    }
+    let tier = ctx.tier;
+    let case = json!({"family": "call-sequence"});
+    ctx.announce(&case);
+    let spheres: Vec<(String, RS)> = crate::props::c16::coxeter_manifolds(Tier::Quick).into_iter().filter(|(_, s)| s.n >= 100).collect();
+    let mut tori: Vec<(String, RS)> = vec![];
+    for (text, s) in corpus() {
+        if let Some(c) = std::panic::catch_unwind(std::panic::AssertUnwindSafe(|| rust_dsymbols::delaney3d::pseudo_toroidal_cover(&to_partial_dsym(&s)).and_then(|c| from_dsym(&c)))).ok().flatten() {
+            if c.n >= 144 && (tier.is_thorough() || tori.iter().all(|(_, t): &(String, RS)| t.n != c.n)) {
+                if c.n < 255 {
+                    // a 2-sheeted cover of it: above the 255-chamber limit of the compact binary form
+                    if let Ok(list) = std::panic::catch_unwind(std::panic::AssertUnwindSafe(|| covers(&to_partial_dsym(&c), 2))) {
+                        if let Some(d) = list.iter().filter_map(|x| from_dsym(x)).find(|d| d.n == 2 * c.n && d.is_connected()) {
+                            tori.push((format!("2-sheeted cover of the pseudo-toroidal cover of {}", text), d));
+                        }
+                    }
+                }
+                tori.push((format!("pseudo-toroidal cover of {}", text), c));
+            }
+        }
+    }
+    if spheres.is_empty() || tori.is_empty() {
+        ctx.cap_hit("call-sequence family: no large symbols could be built; the family was NOT run".into());
+        return;
+    }
+    // the sequence: sphere, torus, sphere renumbered, torus, ... then everything once more in reverse order
+    let mut seq: Vec<(String, RS, bool)> = vec![];
+    let k = spheres.len().max(tori.len());
+    for i in 0..k {
+        let (sn, sp) = &spheres[i % spheres.len()];
+        let (tn, to) = &tori[i % tori.len()];
+        let rev_s: Vec<usize> = (0..sp.n).rev().collect();
+        let rev_t: Vec<usize> = (0..to.n).rev().collect();
+        seq.push((sn.clone(), if i % 2 == 0 { sp.clone() } else { sp.relabel(&rev_s) }, false));
+        seq.push((tn.clone(), if i % 2 == 1 { to.clone() } else { to.relabel(&rev_t) }, true));
+    }
+    let back: Vec<(String, RS, bool)> = seq.iter().rev().cloned().collect();
+    seq.extend(back);
+    let mut first: std::collections::BTreeMap<String, char> = Default::default();
+    for (step, (name, s, is_torus)) in seq.iter().enumerate() {
+        ctx.ops(1);
+        ctx.add("call_sequence_verdicts", 1);
+        ctx.max("call_sequence_largest", s.n as i64);
+        let v = verdict(s);
+        let scase = json!({"family": "call-sequence", "step": step, "symbol": name, "chambers": s.n});
+        if let Verdict::Panic(m) = &v {
+            ctx.violation("panic:is_euclidean", scase, m.clone(), s.n as u64);
+            return;
+        }
+        if *is_torus && v.class() != 'Y' {
+            ctx.violation("call-sequence", scase, format!("step {}: a finite cover of a known-euclidean symbol ({} chambers) gets {:?}", step, s.n, v), s.n as u64);
+            return;
+        }
+        let f = *first.entry(name.clone()).or_insert(v.class());
+        if f != v.class() {
+            ctx.violation("call-sequence", scase, format!("step {}: {} ({} chambers) got class {} when first asked and {:?} now", step, name, s.n, f, v), s.n as u64);
+            return;
+        }
+    }
+    ctx.count(true);
 }
 
 /// Breadth-first search down the subgroup lattice of known-euclidean groups: states are symbols (up to
